@@ -56,7 +56,8 @@ class Checker(object):
         :raises tlslite.errors.TLSAuthenticationError: If the other
             party's certificate chain is missing or bad.
         """
-        if not self.checkResumedSession and connection.resumed:
+        if not self.checkResumedSession and connection.resumed and \
+                not getattr(connection, "_session_from_ticket", False):
             return
 
         if self.x509Fingerprint:
